@@ -121,6 +121,9 @@ func (s *VerifService) ParentFile() protoreflect.FileDescriptor { return s.file 
 func (s *VerifService) Parent() protoreflect.Descriptor         { return s.file }
 func (s *VerifService) IsPlaceholder() bool                     { return false }
 func (s *VerifService) Options() protoreflect.ProtoMessage {
+	if o, ok := s.file.u.fakeOptionsOf(string(s.FullName())); ok {
+		return o
+	}
 	if s.sp.Options == nil {
 		return (*descriptorpb.ServiceOptions)(nil)
 	}
@@ -155,6 +158,9 @@ func (m *VerifMethod) IsPlaceholder() bool                     { return false }
 func (m *VerifMethod) IsStreamingClient() bool                 { return m.mp.GetClientStreaming() }
 func (m *VerifMethod) IsStreamingServer() bool                 { return m.mp.GetServerStreaming() }
 func (m *VerifMethod) Options() protoreflect.ProtoMessage {
+	if o, ok := m.svc.file.u.fakeOptionsOf(string(m.FullName())); ok {
+		return o
+	}
 	if m.mp.Options == nil {
 		return (*descriptorpb.MethodOptions)(nil)
 	}
